@@ -7,6 +7,7 @@
 -/
 import AHP.Lemmas.BuilderTop
 import AHP.Lemmas.WrapStr
+import AHP.Lemmas.WrapLexFeed
 namespace AHP.C02
 open AHP AHP.Spec
 
@@ -249,23 +250,237 @@ theorem html_wrapped (kids : List Node) :
     docHTML none (.elem wrapperName AttrState.empty false kids) = htmlL kids := by
   simp [docHTML, Node.innerHTML]
 
-/-- **C02f (partial).** `addStartTag` at character level: when the text starts with newlines, then blanks,
-    then a doctype declaration as the tokenizer delimits it (`<!doctype` in any letter case, up to the first
-    `>`), the wrapper start tag is placed directly after that declaration — which is where the token-level
-    `wrapToks` places it.  Not proved: the complementary case (no such prefix ⇒ the wrapper goes in front), and
-    the composition `lexStrict (wrapStr (renderToks ts)) = some (wrapToks ts)`; both are covered by the `wrap`
-    cases of the stream, which compare `wrapStr` with the real `addStartTag`. -/
+/-! #### C02f — `addStartTag` at character level
+
+  `DoctypeSplit s p rest` (Lemmas/WrapStr.lean) is the explicit reading of `DOCTYPE_MATCH.match`: `s = p ++ rest`,
+  `p` = newlines, then blanks, then `<!doctype…>` (any letter case) up to its *first* `>`.
+  `startsWithDoctype s` is the decidable reading of "there is such a split" (`startsWithDoctype_iff`). -/
+
+/-- the wrapper's tags are the constants `INVISIBLE_ROOT_TAG_START` / `INVISIBLE_ROOT_TAG_END` -/
+theorem wrapper_tags : wrapOpen = "<xxxblank>".toList ∧ wrapClose = "</xxxblank>".toList := by decide
+
+/-- **C02f, first case.** The text starts as `DOCTYPE_MATCH` reads it: the wrapper start tag goes directly after
+    the matched prefix. -/
+theorem addStartTag_after_doctype (s p rest : Str) (h : DoctypeSplit s p rest) :
+    wrapStr s = p ++ wrapOpen ++ rest ++ wrapClose := by
+  rw [wrapStr_eq]
+  unfold addStartTagStr
+  rw [doctypePrefix_of_split s p rest h]
+
+/-- **C02f, complementary case.** The text does not start with newlines, blanks, `<!doctype…>` (decidable
+    reading): the wrapper start tag goes in front of everything. -/
+theorem addStartTag_no_doctype (s : Str) (h : startsWithDoctype s = false) :
+    wrapStr s = wrapOpen ++ s ++ wrapClose := by
+  rw [wrapStr_eq]
+  unfold addStartTagStr
+  rw [doctypePrefix_none_of_not s h]
+
+/-- the same with the explicit reading -/
+theorem addStartTag_no_doctype' (s : Str) (h : ¬ DoctypeStart s) :
+    wrapStr s = wrapOpen ++ s ++ wrapClose := by
+  apply addStartTag_no_doctype
+  cases hb : startsWithDoctype s with
+  | false => rfl
+  | true => exact absurd ((startsWithDoctype_iff s).mp hb) h
+
+/-- first case of the dichotomy: the text splits (in exactly one way) and the wrapper follows the prefix -/
+def AfterDoctype (s : Str) : Prop :=
+  ∃ p rest, DoctypeSplit s p rest ∧ (∀ p' rest', DoctypeSplit s p' rest' → p' = p ∧ rest' = rest) ∧
+    wrapStr s = p ++ wrapOpen ++ rest ++ wrapClose
+
+/-- second case: no split, the wrapper is in front -/
+def InFront (s : Str) : Prop := ¬ DoctypeStart s ∧ wrapStr s = wrapOpen ++ s ++ wrapClose
+
+/-- **C02f, dichotomy.** Every text falls in exactly one of the two cases, with the explicit result in each;
+    which one is decided by `startsWithDoctype`. -/
+theorem addStartTag_cases (s : Str) :
+    (AfterDoctype s ∨ InFront s) ∧ ¬ (AfterDoctype s ∧ InFront s) ∧
+    (AfterDoctype s ↔ startsWithDoctype s = true) ∧ (InFront s ↔ startsWithDoctype s = false) := by
+  have hA : startsWithDoctype s = true → AfterDoctype s := by
+    intro hb
+    obtain ⟨p, rest, hsp⟩ := (startsWithDoctype_iff s).mp hb
+    exact ⟨p, rest, hsp, fun p' rest' h' => doctypeSplit_unique s p rest p' rest' hsp h',
+      addStartTag_after_doctype s p rest hsp⟩
+  have hA' : AfterDoctype s → startsWithDoctype s = true := by
+    rintro ⟨p, rest, hsp, _, _⟩
+    exact (startsWithDoctype_iff s).mpr ⟨p, rest, hsp⟩
+  have hB : startsWithDoctype s = false → InFront s := by
+    intro hb
+    refine ⟨fun hd => ?_, addStartTag_no_doctype s hb⟩
+    rw [(startsWithDoctype_iff s).mpr hd] at hb
+    exact absurd hb (by simp)
+  have hB' : InFront s → startsWithDoctype s = false := by
+    rintro ⟨hn, _⟩
+    cases hb : startsWithDoctype s with
+    | false => rfl
+    | true => exact absurd ((startsWithDoctype_iff s).mp hb) hn
+  refine ⟨?_, ?_, ⟨hA', hA⟩, ⟨hB', hB⟩⟩
+  · cases hb : startsWithDoctype s with
+    | true => exact Or.inl (hA hb)
+    | false => exact Or.inr (hB hb)
+  · rintro ⟨ha, hb⟩
+    have h1 := hA' ha
+    rw [hB' hb] at h1
+    exact absurd h1 (by simp)
+
+/-- the earlier, partial form of the first case (kept under its name; now a corollary) -/
 theorem addStartTag_after_doctype_partial (nl bl d rest : Str)
     (hnl : ∀ x ∈ nl, isNl x = true) (hbl : ∀ x ∈ bl, isBl x = true)
     (hd : lower (d.take 7) = "doctype".toList) (hgt : '>' ∉ d) :
     wrapStr (nl ++ bl ++ ('<' :: '!' :: d ++ '>' :: rest))
       = nl ++ bl ++ ('<' :: '!' :: d ++ ['>']) ++ ('<' :: wrapperName ++ ['>']) ++ rest
           ++ ('<' :: '/' :: wrapperName ++ ['>']) := by
-  unfold wrapStr addStartTagStr
-  rw [doctypePrefix_decl nl bl d rest hnl hbl hd hgt]
+  have h : DoctypeSplit (nl ++ bl ++ ('<' :: '!' :: d ++ '>' :: rest)) (nl ++ bl ++ ('<' :: '!' :: d ++ ['>'])) rest :=
+    ⟨nl, bl, d, hnl, hbl, hd, hgt, rfl, by simp⟩
+  exact addStartTag_after_doctype _ _ _ h
 
+/-! non-vacuity: both cases occur; white space in the wrong order, a declaration without `>`, a comment and the
+    empty text are "no doctype" -/
+example : DoctypeSplit "\n  <!DOCTYPE html><a></a>x".toList "\n  <!DOCTYPE html>".toList "<a></a>x".toList :=
+  ⟨"\n".toList, "  ".toList, "DOCTYPE html".toList, by decide, by decide, by decide, by decide, rfl, rfl⟩
+example : startsWithDoctype "\n  <!DOCTYPE html><a></a>x".toList = true := by decide
+example : startsWithDoctype " \n<!DOCTYPE html><a></a>".toList = false := by decide
+example : startsWithDoctype "<!DOCTYPE html".toList = false := by decide
+example : startsWithDoctype "<!-- c --><a></a><b></b>".toList = false := by decide
+example : startsWithDoctype [] = false := by decide
+example : InFront "<a></a><b></b>".toList :=
+  ((addStartTag_cases _).2.2.2).mpr (by decide)
+example : AfterDoctype "<!doctype html><a></a><b></b>".toList :=
+  ((addStartTag_cases _).2.2.1).mpr (by decide)
 example : wrapStr "\n  <!DOCTYPE html><a></a>x".toList = "\n  <!DOCTYPE html><xxxblank><a></a>x</xxxblank>".toList := by decide
 example : wrapStr " \n<!DOCTYPE html><a></a>".toList = "<xxxblank> \n<!DOCTYPE html><a></a></xxxblank>".toList := by decide
+
+/-! #### C02f — composition with the strict lexer
+
+  `renderToks` / `ListOK` (Lemmas/LexRoundTrip.lean): the serialisers' output grammar and "every token well formed
+  and followed by something that keeps it a token of its own" — the side condition of `lexStrict_renderToks`.
+  `ListOK` contains the two conditions that matter for the wrapper: a doctype declaration has no `>` inside
+  (`TokOK (.decl d)`), and a data run is not followed by another data run (`Follows`). -/
+
+/-- **C02f (`DOCTYPE_MATCH`: characters = tokens).** On the rendering of a token list in the serialiser's image,
+    `DOCTYPE_MATCH.match` finds exactly the rendering of what `leadDoctype` finds on the tokens: a leading
+    declaration, or a leading data run of the shape `[\n]*[ \t]*` and then the declaration; nothing otherwise. -/
+theorem doctypeMatch_text_eq_tokens (ts : List Token) (h : ListOK ts) :
+    doctypePrefix (renderToks ts) = (leadDoctype ts).map (fun pr => (renderToks pr.1, renderToks pr.2)) :=
+  doctypePrefix_renderToks ts h
+
+/-- **C02f (composition).** The text of the second pass, `addStartTag(text, '<xxxblank>') + '</xxxblank>'`, of the
+    rendering of a token list in the serialiser's image lexes to `wrapToks` of that list: the character-level
+    placement of the wrapper is the token-level one `feed_eq_spec` works with. -/
+theorem wrapText_lex_eq_wrapToks (ts : List Token) (h : ListOK ts) :
+    lexStrict (wrapStr (renderToks ts)) = some (wrapToks ts) :=
+  lexStrict_wrapStr_renderToks ts h
+
+/-- leading doctype token: the wrapper opens directly after it -/
+theorem wrapText_lex_leading_doctype (d : Str) (r : List Token) (h : ListOK (.decl d :: r)) :
+    lexStrict (wrapStr (renderToks (.decl d :: r)))
+      = some (.decl d :: .start wrapperName [] :: r ++ [.end_ wrapperName]) := by
+  rw [wrapText_lex_eq_wrapToks _ h]; rfl
+
+/-- white space of the shape `[\n]*[ \t]*` in front of the doctype: a data token of its own that stays *outside*
+    the wrapper (the builder drops it: `pre_skip`; the specification does not count it as content: `topTokens`) -/
+theorem wrapText_lex_ws_doctype (ws d : Str) (r : List Token) (hws : wsNL ws = true)
+    (h : ListOK (.data ws :: .decl d :: r)) :
+    lexStrict (wrapStr (renderToks (.data ws :: .decl d :: r)))
+      = some (.data ws :: .decl d :: .start wrapperName [] :: r ++ [.end_ wrapperName]) := by
+  rw [wrapText_lex_eq_wrapToks _ h]
+  simp [wrapToks, leadDoctype, hws]
+
+/-- anything else first (including white space of another shape in front of a doctype): the wrapper is in front
+    of everything, the white space and the declaration are inside it -/
+theorem wrapText_lex_other (ts : List Token) (h : ListOK ts) (hl : leadDoctype ts = none) :
+    lexStrict (wrapStr (renderToks ts)) = some (.start wrapperName [] :: ts ++ [.end_ wrapperName]) := by
+  rw [wrapText_lex_eq_wrapToks _ h]
+  simp [wrapToks, hl]
+
+/-- **C02a/f end to end, on text.** For every token list in the serialiser's image that does not mention the
+    reserved wrapper name, parsing the TEXT `renderToks ts` with the two-pass `feed` (lex; build; on
+    MultipleRootNodeException insert the wrapper *into the text*, lex and build again) gives the document of the
+    recursive-descent specification. -/
+theorem feedText_eq_spec (ts : List Token) (h : ListOK ts) (hw : NoWrapper ts) :
+    feedText (renderToks ts) = some (.doc (Spec.build ts).1 (Spec.build ts).2) := by
+  rw [feedText_renderToks ts h, feed_eq_spec ts hw]
+
+/-! non-vacuity: a multi-root document with white space and a doctype in front is in the serialiser's image,
+    does not mention the wrapper, and takes the second pass -/
+private theorem tagOK_a : TagNameOK "a".toList := ⟨⟨'a', [], rfl, by decide⟩, by decide, by decide⟩
+private theorem tagOK_br : TagNameOK "br".toList := ⟨⟨'b', ['r'], rfl, by decide⟩, by decide, by decide⟩
+
+def sampleDoc : List Token :=
+  [.data "\n ".toList, .decl "DOCTYPE html".toList, .start "a".toList [], .end_ "a".toList, .data "x".toList,
+   .start "br".toList []]
+
+theorem sampleDoc_ok : ListOK sampleDoc := by
+  apply listOK_of_noAdjData
+  · intro t ht
+    simp [sampleDoc] at ht
+    rcases ht with rfl | rfl | rfl | rfl | rfl | rfl
+    · exact Or.inr (Or.inr ⟨by decide, by decide⟩)
+    · exact ⟨by decide, by decide⟩
+    · exact ⟨tagOK_a, by decide, fun x hx => by simp at hx⟩
+    · exact tagOK_a
+    · exact Or.inr (Or.inr ⟨by decide, by decide⟩)
+    · exact ⟨tagOK_br, by decide, fun x hx => by simp at hx⟩
+  · intro t ht
+    simp [sampleDoc] at ht
+    rcases ht with rfl | rfl | rfl | rfl | rfl | rfl <;> first | trivial | exact ⟨by decide, by decide⟩
+  · simp [sampleDoc, NoAdjData, isData]
+
+example : NoWrapper sampleDoc := by
+  intro t ht
+  simp [sampleDoc] at ht
+  rcases ht with rfl | rfl | rfl | rfl | rfl | rfl <;> decide
+
+example : renderToks sampleDoc = "\n <!DOCTYPE html><a ></a>x<br >".toList := by decide
+example : wrapStr (renderToks sampleDoc) = "\n <!DOCTYPE html><xxxblank><a ></a>x<br ></xxxblank>".toList := by decide
+example : (Spec.build sampleDoc).2 = true := by decide
+example : feedText (renderToks sampleDoc) = some (.doc (Spec.build sampleDoc).1 true) :=
+  feedText_eq_spec sampleDoc sampleDoc_ok (by
+    intro t ht
+    simp [sampleDoc] at ht
+    rcases ht with rfl | rfl | rfl | rfl | rfl | rfl <;> decide)
+
+/-! the side conditions are needed.
+    (1) A `>` inside the declaration (`TokOK (.decl d)` fails): the tokenizer and `DOCTYPE_MATCH` both end the
+        declaration at the first `>`, the wrapper lands inside what the token list calls the declaration.
+    (2) Two adjacent data runs (`Follows` fails): the text starts `\n <!doctype…`, so the wrapper goes after the
+        declaration, while `leadDoctype` sees two data tokens first and puts it in front.
+    (3) The wrapper's name in the text (`NoWrapper` fails): the stray `</xxxblank>` closes the wrapper early and the
+        second pass raises, where the specification builds a document. -/
+example : lexStrict (wrapStr (renderToks [.decl "doctype a>b".toList, .start "a".toList [], .end_ "a".toList]))
+    ≠ some (wrapToks [.decl "doctype a>b".toList, .start "a".toList [], .end_ "a".toList]) := by decide
+
+example : lexStrict (wrapStr (renderToks [.data "\n".toList, .data " ".toList, .decl "doctype html".toList,
+      .start "a".toList [], .end_ "a".toList]))
+    ≠ some (wrapToks [.data "\n".toList, .data " ".toList, .decl "doctype html".toList,
+      .start "a".toList [], .end_ "a".toList]) := by decide
+
+def strayWrapperEnd : List Token :=
+  [.start "a".toList [], .end_ "a".toList, .end_ wrapperName, .start "a".toList [], .end_ "a".toList]
+
+theorem strayWrapperEnd_ok : ListOK strayWrapperEnd := by
+  apply listOK_of_noAdjData
+  · intro t ht
+    simp [strayWrapperEnd] at ht
+    rcases ht with rfl | rfl | rfl | rfl | rfl
+    · exact ⟨tagOK_a, by decide, fun x hx => by simp at hx⟩
+    · exact tagOK_a
+    · exact wrapper_tagNameOK
+    · exact ⟨tagOK_a, by decide, fun x hx => by simp at hx⟩
+    · exact tagOK_a
+  · intro t ht
+    simp [strayWrapperEnd] at ht
+    rcases ht with rfl | rfl | rfl | rfl | rfl <;> trivial
+  · simp [strayWrapperEnd, NoAdjData, isData]
+
+theorem strayWrapperEnd_raises : feedTokens strayWrapperEnd = .raised .multipleRoot := by rfl
+
+/-- without `NoWrapper` the end-to-end statement fails: the text-level `feed` raises -/
+example : feedText (renderToks strayWrapperEnd)
+    ≠ some (.doc (Spec.build strayWrapperEnd).1 (Spec.build strayWrapperEnd).2) := by
+  rw [feedText_renderToks _ strayWrapperEnd_ok, strayWrapperEnd_raises]
+  intro h
+  cases h
 
 /-! #### Non-vacuity -/
 example : NoWrapper [.start "a".toList [], .data "x".toList, .end_ "b".toList, .start "br".toList []] := by
